@@ -2325,6 +2325,17 @@ Proof.
   destruct (fit n c e); inversion H; subst; assumption.
 Qed.
 
+
+Lemma lone_point_wf : forall (neg : bool) (r1 r2 : bytes) (d : dec),
+  (match r1, r2 with 46 :: _, [] => Some (DFin neg 0 0) | _, _ => None end) = Some d -> d = DFin neg 0 0.
+Proof.
+  intros neg r1 r2 d. destruct r1 as [|b r]; [discriminate|].
+  destruct (Z.eq_dec b 46) as [->|Hb].
+  - destruct r2; [intros H; inversion H; reflexivity | discriminate].
+  - destruct b as [|p|p]; try discriminate.
+    repeat (destruct p as [p|p|]; try discriminate). exfalso; apply Hb; reflexivity.
+Qed.
+
 Lemma parse_dec_body_wf : forall neg s d, parse_dec_body neg s = Some d -> wf_dec d.
 Proof.
   intros neg s d. unfold parse_dec_body.
@@ -2347,7 +2358,7 @@ Proof.
       inversion E'; subst; assumption. }
   destruct (match r1 with 46 :: r => _ | _ => _ end) as [[[c nf] nd] r2] eqn:EC.
   specialize (HC _ _ _ _ eq_refl).
-  destruct (nd =? 0); [discriminate|].
+  destruct (nd =? 0); [intros H; apply lone_point_wf in H; subst d; apply wf_zero; unfold emin, emax; lia|].
   destruct r2 as [|b r].
   - apply wf_fit_no_inf. assumption.
   - destruct (_ || _); [|discriminate].
